@@ -253,6 +253,7 @@ func TestC20(t *testing.T) {
 		"(5) unencodable entry (v1 id > 255, message not in the dialect, nil message) at every position: error, file length unchanged, final file reads back as the accepted entries. " +
 		"distinct = distinct log images")
 	rep.RuleAdd("Also: underlying writers with a Flush method whose write error is not sticky; six logs written concurrently through slow writers with unencodable entries mixed in. A log of 6000+ entries read back from a source serving large blocks.")
+	rep.RuleAdd("Rounds 12-15: writers with Flush methods, slow writers with six concurrent logs, logs of 6000+ entries, entries that make the encoder panic, tunnelled records, write errors of the timeout class.")
 	rep.Assume("reference log image = BE64(unix microseconds) || reference frame serialization")
 	seed := vh.Seed()
 	all := shippedOrViolation(rep, t)
